@@ -333,28 +333,44 @@ def r5_labels_names(m, ctx, blocks):
     if stmt_tf is None:
         r.error("StmtBase.tofortran vanished")
         return r
-    fl = F.Flow(m, stmt_tf, LabelNameClient())
-    out = fl.run(F.State({}))
+    # decided on a table, by interpretation (no local name of the printer is relied on): statements with / without label and
+    # construct name, free and fixed form, with and without indentation
+    from sa import pureeval as PE
+
+    class _Stmt(PE.Obj):
+        def __str__(self):
+            return "STMT_TEXT"
+    ev = PE.Evaluator({})
     bad = None
     n = 0
-    for st, node in out.ret:
-        if node is None or node.value is None:
-            bad = (node, "returns nothing")
-            continue
-        n += 1
-        names = A.names_in(node.value)
-        txt = A.text(node.value)
-        lab, nam = st.get("label"), st.get("name")
-        if "str(self)" not in txt and "self.tostr()" not in txt:
-            bad = (node, "does not include the statement text")
-        if F.Flow.truth_vals(nam)[0] and "name" not in names:
-            bad = (node, "omits the construct name on a path where the statement can have one")
-        if F.Flow.truth_vals(lab)[0] and not ({"t", "label"} & names):
-            bad = (node, "omits the statement label on a path where the statement can have one")
-    r.ob(bad is None and n > 0, "StmtBase.tofortran: %d return states, label/name/text present where applicable" % n)
+    try:
+        for label in (None, 10, 12345):
+            for name in (None, "outer"):
+                for isfix in (None, False, True):
+                    for tab in ("", "      "):
+                        for has_item in ((True,) if (label or name) else (True, False)):
+                            me = _Stmt({"item": PE.Obj({"label": label, "name": name}) if has_item else None})
+                            n += 1
+                            out = ev.run_function(stmt_tf.node, [me], {"tab": tab, "isfix": isfix})
+                            what = None
+                            if not isinstance(out, str) or not out.endswith("STMT_TEXT"):
+                                what = "does not end with the statement text"
+                            elif label is not None and str(label) not in out[:-len("STMT_TEXT")]:
+                                what = "omits the statement label"
+                            elif name is not None and (name + ":") not in out[:-len("STMT_TEXT")].replace(" ", ""):
+                                what = "omits the construct name"
+                            elif label is not None and name is not None and out.index(str(label)) > out.index(name):
+                                what = "prints the construct name in front of the label"
+                            if what and bad is None:
+                                bad = (what, "label %r, construct name %r, isfix=%r, tab=%r -> %r" % (label, name, isfix, tab, out))
+    except PE.Unsupported as err:
+        r.error("StmtBase.tofortran cannot be interpreted statically (%s)" % err)
+        return r
+    except PE.PyRaise as err:
+        bad = ("raises %s" % err.exc_type, "on a statement with label/name")
+    r.ob(bad is None and n > 0, "StmtBase.tofortran: %d cases (label / construct name / fixed form / indentation): label, name and text printed" % n)
     if bad is not None:
-        r.fail("StmtBase.tofortran|%s" % bad[1][:25], "StmtBase.tofortran: `%s` %s" % (A.text(bad[0])[:50] if bad[0] is not None else "end", bad[1]),
-               m.loc(stmt_tf, bad[0]) if bad[0] is not None else m.loc(stmt_tf))
+        r.fail("StmtBase.tofortran|%s" % bad[0][:25], "StmtBase.tofortran %s: %s" % (bad[0], bad[1]), m.loc(stmt_tf))
     return r
 
 
@@ -369,8 +385,19 @@ def r6_inverse_map(m):
         return r
     loops = [n for n in A.body_nodes(f.node) if isinstance(n, ast.For)]
     reps = [c for c in A.calls(f.node) if isinstance(c.func, ast.Attribute) and c.func.attr == "replace"]
-    iter_ok = len(loops) == 1 and isinstance(loops[0].iter, ast.Call) and "findall" in A.text(loops[0].iter.func) \
-        and not any(isinstance(c, ast.Call) and A.dotted(c.func) in ("set", "sorted", "dict.fromkeys") for c in ast.walk(loops[0].iter))
+    def occurrences(e):
+        """the findall() list itself or an order- and multiplicity-preserving view of it"""
+        if isinstance(e, ast.Call) and "findall" in A.text(e.func):
+            return True
+        if isinstance(e, ast.Call) and A.dotted(e.func) in ("list", "tuple", "iter") and len(e.args) == 1:
+            return occurrences(e.args[0])
+        if isinstance(e, (ast.GeneratorExp, ast.ListComp)) and len(e.generators) == 1 and not e.generators[0].ifs \
+                and isinstance(e.elt, ast.Name) and isinstance(e.generators[0].target, ast.Name) and e.elt.id == e.generators[0].target.id:
+            return occurrences(e.generators[0].iter)
+        if isinstance(e, ast.Subscript) and isinstance(e.slice, ast.Slice) and e.slice.lower is None and e.slice.upper is None and e.slice.step is None:
+            return occurrences(e.value)
+        return False
+    iter_ok = len(loops) == 1 and occurrences(loops[0].iter)
     bounded = bool(reps) and all(len(c.args) >= 3 and A.const(c.args[2]) == 1 for c in reps)
     # prefix property of the key formats (a key without terminator is a prefix of the key with a longer index)
     srm = m.need_func("fparser.common.splitline", "string_replace_map")
@@ -454,6 +481,8 @@ def run(m, tier):
                r6_inverse_map(m), r7_restore_order(m), rr.rule_splitquote(m, "C02.R8"), engine_tables.string_rules(m, "C02.R9"), rr.rule_literal_folding(m, "C02.R10"), rr.rule_semicolon(m, "C02.R11"), guard_rules.delimiter_offset_rule(m, "C02.R12"), guard_rules.keyword_prefix_rule(m, "C02.R13"), rr.rule_inline_table(m, "C02.R14"), guard_rules.optional_keyword_rule(m, "C02.R15"), guard_rules.alt_delimiter_rule(m, "C02.R16", "Fortran2003"), optional_rules.printed_rule(m, "C02.R17"), guard_rules.length_contradiction_rule(m, "C02.R18"), rr.rule_continuation(m, "C02.R19"), engine_tables.list_stmt_rule(m, "C02.R20"), guard_rules.index_provenance_rule(m, "C02.R21"), two_roundtrip.roundtrip_rule(m, "C02.R22", floor=290, tokens=True), rr.replace_map_table_rule(m, "C02.R23"), two_roundtrip.block_printer_rule(m, "C02.R24"), two_roundtrip.full_roundtrip_rule(m, "C02.R25", tokens=True)] + shared + [cons]
     from rules import prog_rules
     results.append(prog_rules.roundtrip_rule(m, "C02.R26", tier, tokens=True))
+    from rules import reader_interp
+    results.append(reader_interp.free_rule(m, "C02.R27", tier))
     expl = ("Decides structural clauses of C02 -- no place where content is dropped, duplicated or case-folded: literal-bearing leaves "
             "store the input text without case folding; in all functions that tokenise a line, no child node is built from text that "
             "still carries placeholders (path-sensitive may-taint with the map call as sanitiser); Program.match returns what it "
